@@ -169,3 +169,29 @@ func OpenFDs() map[int]string {
 	}
 	return out
 }
+
+// TagByte is the self-identifying payload byte used by the socket checks: the writer id in the two
+// top bits and a position-dependent value below.
+func TagByte(w int, pos int64) byte {
+	return byte(w<<6) | byte((pos*37+(pos>>6)*11+(pos>>12)*5+(pos>>18))&0x3f)
+}
+
+// FillTagged returns n tagged bytes of writer w starting at stream position pos.
+func FillTagged(w int, pos int64, n int) []byte {
+	b := make([]byte, n)
+	for i := range b {
+		b[i] = TagByte(w, pos+int64(i))
+	}
+	return b
+}
+
+// CheckTagged verifies that data continues writer w's stream at position pos; it returns the index
+// of the first wrong byte or -1.
+func CheckTagged(w int, pos int64, data []byte) int {
+	for i, b := range data {
+		if b != TagByte(w, pos+int64(i)) {
+			return i
+		}
+	}
+	return -1
+}
